@@ -24,7 +24,8 @@ ASSUMPTIONS = [
     "error kinds are compared as a small enum (flagRaised / apiMissing / noResults / other); for api_data={} the fresh-session "
     "oracle is a fresh prepare (with the stored api data) + the same call, because run_all(api_data={}) cannot plan api features",
     "what deepcopy does to user objects inside options is not modelled (option values are immutable data here)",
-    "shared-GlobalFilter scenario runs on PyArrow / PythonDict only (PandasFilterEngine fails on every filter: C11 finding)",
+    "optreuse: in_features sets with two or more nested Feature objects are not generated (Feature.__hash__ deep-copies "
+    "child_options recursively; planning such a request does not terminate in practical time on the unchanged tree)",
 ]
 
 CLS_GF = "shared-GlobalFilter-reused-after-call-with-different-framework-or-options-on-same-group"
@@ -351,7 +352,213 @@ def ch_linkseq(c: Dict[str, Any]) -> Dict[str, Any]:
     return {"calls": calls_out}
 
 
-CHILD = {"history": ch_history, "gfseq": ch_gfseq, "linkseq": ch_linkseq}
+
+# ---- argument re-use with rich options: nested Feature objects + values that cannot be deep-copied ------------------
+
+
+class OwnCopy:
+    """a value with its own __deepcopy__ (returns a new equal object)"""
+
+    def __init__(self, v: int) -> None:
+        self.v = v
+
+    def __deepcopy__(self, memo: Any) -> "OwnCopy":
+        return OwnCopy(self.v)
+
+    def __eq__(self, o: Any) -> bool:
+        return isinstance(o, OwnCopy) and o.v == self.v
+
+    def __hash__(self) -> int:
+        return hash(("OwnCopy", self.v))
+
+
+def _gen_value() -> Any:
+    yield 1
+
+
+def _make_uncopyable(kind: str) -> Any:
+    import sqlite3
+    import threading
+
+    if kind == "sqlite":
+        return sqlite3.connect(":memory:", check_same_thread=False)
+    if kind == "lock":
+        return threading.Lock()
+    if kind == "generator":
+        return _gen_value()
+    if kind == "own_deepcopy":
+        return OwnCopy(3)
+    return 7  # "none": an ordinary copyable value
+
+
+_OW: Dict[str, Any] = {}
+
+
+def _opt_world(fwn: str) -> Any:
+    """root r1 + two generated groups that take their inputs from options[in_features] and a factor from the options"""
+    from harness import fgfactory as F
+    from mloda_plugins.feature_group.experimental.default_options_key import DefaultOptionKeys
+
+    if fwn in _OW:
+        return _OW[fwn]
+    fw = F.FW_SHORT[fwn]
+    IN = DefaultOptionKeys.in_features
+
+    def inp(self: Any, options: Any, feature_name: Any) -> Any:
+        return set(options.get_in_features())
+
+    def calc_for(name: str, key: str) -> Any:
+        def calc(cls: Any, data: Any, features: Any) -> Any:
+            cols = F.to_columns(data)
+            scale = features.get_options_key(key)
+            v = features.get_options_key(IN)
+            ins = [str(v.name)] if hasattr(v, "get_name") else sorted(str(f.name) for f in v)
+            n = len(next(iter(cols.values())))
+            return F.add_columns(data, {name: [sum(cols[c][i] for c in ins) * scale for i in range(n)]})
+
+        return classmethod(calc)
+
+    R = F.make_group(F.uniq("O07r_"), root_data={"r1": [1, 2, 3]}, frameworks={fw})
+    S1 = F.make_group(F.uniq("O07s_"), derived={"sc": {"parents": [], "expr": ["const", 0]}}, frameworks={fw}, extra={"input_features": inp, "calculate_feature": calc_for("sc", "scale")})
+    S2 = F.make_group(F.uniq("O07t_"), derived={"sc2": {"parents": [], "expr": ["const", 0]}}, frameworks={fw}, extra={"input_features": inp, "calculate_feature": calc_for("sc2", "scale2")})
+    _OW[fwn] = (fw, F.collector({R, S1, S2}))
+    return _OW[fwn]
+
+
+def _deep_snap(x: Any, depth: int = 0) -> Any:
+    """structural snapshot of a caller-owned object graph: names, option dicts recursively, uuids, engine-written fields;
+    objects that are not data (connections, locks, generators …) are recorded by identity"""
+    from mloda.user import Feature, Options
+
+    if depth > 12:
+        return "…"
+    if isinstance(x, Feature):
+        return {
+            "Feature": str(x.name), "uuid": str(x.uuid), "options": _deep_snap(x.options, depth + 1),
+            "compute_frameworks": None if x.compute_frameworks is None else sorted(c.__name__ for c in x.compute_frameworks),
+            "data_type": str(x.data_type), "domain": None if x.domain is None else str(x.domain.name),
+            "initial_requested_data": bool(x.initial_requested_data), "child_options": _deep_snap(x.child_options, depth + 1),
+            "has_link": x.link is not None, "has_index": x.index is not None,
+        }  # fmt: skip
+    if isinstance(x, Options):
+        return {"group": _deep_snap(x.group, depth + 1), "context": _deep_snap(x.context, depth + 1), "propagate": sorted(x.propagate_context_keys)}
+    if isinstance(x, dict):
+        return {str(k): _deep_snap(v, depth + 1) for k, v in sorted(x.items(), key=lambda kv: str(kv[0]))}
+    if isinstance(x, (frozenset, set)):
+        return {"set": sorted((_deep_snap(v, depth + 1) for v in x), key=lambda v: json.dumps(v, sort_keys=True, default=str))}
+    if isinstance(x, (list, tuple)):
+        return [_deep_snap(v, depth + 1) for v in x]
+    if x is None or isinstance(x, (bool, int, float, str)):
+        return x
+    if isinstance(x, OwnCopy):
+        return {"OwnCopy": x.v, "id": id(x)}
+    return {"object": type(x).__name__, "id": id(x)}
+
+
+def _shallow(f: Any) -> Any:
+    """the object's own fields (nested Feature objects only by identity)"""
+    from mloda.user import Feature
+
+    def val(v: Any) -> Any:
+        if isinstance(v, Feature):
+            return ("Feature", id(v))
+        if isinstance(v, (frozenset, set)):
+            return sorted(repr(val(x)) for x in v)
+        if v is None or isinstance(v, (bool, int, float, str)):
+            return v
+        return ("object", id(v))
+
+    return [str(f.name), str(f.uuid), None if f.compute_frameworks is None else sorted(c.__name__ for c in f.compute_frameworks), str(f.data_type),
+            None if f.domain is None else str(f.domain.name), bool(f.initial_requested_data), f.child_options is None,
+            sorted((str(k), repr(val(v))) for k, v in f.options.group.items()), sorted((str(k), repr(val(v))) for k, v in f.options.context.items())]  # fmt: skip
+
+
+def _snap_diff(a: Any, b: Any, path: str = "") -> List[str]:
+    if type(a) != type(b):
+        return [f"{path}: {a!r} -> {b!r}"]
+    if isinstance(a, dict):
+        out: List[str] = []
+        for k in sorted(set(a) | set(b)):
+            if k not in a or k not in b:
+                out.append(f"{path}.{k}: {a.get(k, '<absent>')!r} -> {b.get(k, '<absent>')!r}")
+            else:
+                out += _snap_diff(a[k], b[k], f"{path}.{k}")
+        return out
+    if isinstance(a, list):
+        if len(a) != len(b):
+            return [f"{path}: {a!r} -> {b!r}"]
+        out = []
+        for i, (x, y) in enumerate(zip(a, b)):
+            out += _snap_diff(x, y, f"{path}[{i}]")
+        return out
+    return [] if a == b else [f"{path}: {a!r} -> {b!r}"]
+
+
+def ch_optreuse(c: Dict[str, Any]) -> Dict[str, Any]:
+    from mloda.user import mloda, Feature, Options
+    from mloda_plugins.feature_group.experimental.default_options_key import DefaultOptionKeys
+
+    IN = DefaultOptionKeys.in_features
+    fw, pc = _opt_world(c["fw"])
+
+    def build() -> Dict[str, Any]:
+        """the caller's object graph for this case (fresh, equal objects on every call of build)"""
+        res = _make_uncopyable(c["uncopyable"])
+
+        def opts(d: Dict[str, Any], with_res: bool) -> Any:
+            g = dict(d)
+            ctxd: Dict[str, Any] = {}
+            if with_res:
+                (g if c["where"] == "group" else ctxd)["res"] = res
+            return Options(group=g, context=ctxd)
+
+        b1 = Feature("r1")
+        shape = c["shape"]
+        ins1 = b1 if shape in ("feature", "nested_ff", "nested_sf") else frozenset({b1})
+        mid = Feature("sc", options=opts({IN: ins1, "scale": c["scale"]}, True))
+        top = None
+        if shape.startswith("nested"):
+            ins2 = mid if shape in ("nested_ff", "nested_fs") else frozenset({mid})
+            top = Feature("sc2", options=opts({IN: ins2, "scale2": c["scale2"]}, c["res_on_top"]))
+        return {"b1": b1, "mid": mid, "top": top, "res": res, "ins1": ins1, "opts": opts}
+
+    def request(objs: Dict[str, Any], call: Dict[str, Any]) -> List[Any]:
+        k = call["kind"]
+        if k == "same":
+            return [objs["top"] if objs["top"] is not None else objs["mid"]]
+        if k == "mid":
+            return [objs["mid"]]
+        if k == "base":
+            return [objs["b1"]]
+        # "rewrap": a new requested feature (other factor) around the caller's existing input objects
+        return [Feature("sc", options=objs["opts"]({IN: objs["ins1"], "scale": call["scale"]}, True))]
+
+    shared = build()
+    watch = {k: shared[k] for k in ("b1", "mid", "top") if shared[k] is not None}
+    snap0 = _deep_snap(watch)
+    shallow0 = {k: _shallow(v) for k, v in watch.items()}
+    calls_out = []
+    for call in c["calls"]:
+        out: Dict[str, Any] = {}
+        for variant in ("shared", "fresh"):
+            objs = shared if variant == "shared" else build()
+            try:
+                out[variant] = {"tables": _tables(mloda.run_all(request(objs, call), compute_frameworks={fw}, plugin_collector=pc))}
+            except Exception as e:
+                out[variant] = {"raised": _err_enum(e)}
+        diff = _snap_diff(snap0, _deep_snap(watch))
+        out["modified"] = [d[:260] + (" …" if len(d) > 260 else "") for d in diff[:6]]
+        out["modified_objs"] = sorted(k for k in watch if _shallow(watch[k]) != shallow0[k])
+        calls_out.append(out)
+    try:
+        if hasattr(shared["res"], "close"):
+            shared["res"].close()
+    except Exception:
+        pass
+    return {"calls": calls_out}
+
+
+CHILD = {"history": ch_history, "gfseq": ch_gfseq, "linkseq": ch_linkseq, "optreuse": ch_optreuse}
 
 
 def child_main() -> None:
@@ -502,7 +709,10 @@ def run(ctx: Any) -> None:
         "{} / omitted api data, SYNC and THREADING) of length 2-8 on one real session, every call compared with a fresh "
         "session with equal fresh arguments and with the model; gfseq / linkseq: sequences of prepare / run_all calls sharing "
         "Feature, Options, GlobalFilter, links objects, compared call by call with fresh equal objects and with the model "
-        "(filter collection, plan filters, links set); non-trivial = history with >=1 failing or abandoned call, or sequence "
+        "(filter collection, plan filters, links set); optreuse: call sequences re-using Feature objects whose options hold nested "
+        "Feature objects (in_features as Feature / frozenset, two levels) and values that cannot be deep-copied (sqlite connection, "
+        "lock, generator) or define __deepcopy__, recursive structural snapshot of the caller's objects after every call, every "
+        "call compared with fresh equal objects and a reference evaluation; non-trivial = history with >=1 failing or abandoned call, or sequence "
         "with >=2 calls touching the same group"
     )
     nworkers = ctx.budget(6, 12)
@@ -518,16 +728,30 @@ def run(ctx: Any) -> None:
             filters.append(["b", "min", {"value": 0}])
         calls = []
         same_cfg = rng.random() < 0.4
-        fw0, ov0 = rng.choice(["pa", "py"]), rng.choice([0, 1, 2])
+        fw0, ov0 = rng.choice(["pa", "py", "pd"]), rng.choice([0, 1, 2])
         for _ in range(rng.randint(2, 6)):
             k = rng.randint(1, 3)
             names = rng.sample(["a", "b", "c", "p", "q"], k)
             calls.append({"kind": rng.choice(["run_all", "run_all", "prepare"]), "feats": names,
-                          "fw": fw0 if same_cfg else rng.choice(["pa", "py"]), "ov": ov0 if same_cfg else rng.choice([0, 0, 1, 2])})  # fmt: skip
+                          "fw": fw0 if same_cfg else rng.choice(["pa", "py", "pd"]), "ov": ov0 if same_cfg else rng.choice([0, 0, 1, 2])})  # fmt: skip
         cases.append({"kind": "gfseq", "filters": filters, "calls": calls, "share_options": rng.random() < 0.5})
     for _ in range(ctx.budget(24, 200)):
         calls = [rng.choice([["s_link"], ["x"], ["x", "ja"], ["s"], ["ja", "x"], ["s_link", "x"]]) for _ in range(rng.randint(2, 5))]
         cases.append({"kind": "linkseq", "fw": rng.choice(["pa", "pd", "py"]), "initial_has_link": rng.random() < 0.5, "calls": calls})
+
+    # re-use of caller objects whose options hold nested Feature objects and values that cannot be deep-copied
+    shapes = ["feature", "frozenset", "nested_ff", "nested_fs", "nested_sf"]
+    n_opt = ctx.budget(48, 400)
+    for j in range(n_opt):
+        shape = shapes[j % len(shapes)] if j >= ctx.budget(1, 12) else "nested_ss"  # the doubly nested frozenset shape is slow to plan
+        unc = ["sqlite", "lock", "generator", "own_deepcopy", "none"][(j // len(shapes)) % 5] if rng.random() < 0.8 else rng.choice(["sqlite", "lock", "generator"])
+        kinds = ["same", "rewrap", "base"] + (["mid"] if shape.startswith("nested") else [])
+        ncalls = rng.randint(2, 3 if shape == "nested_ss" else 4)
+        calls = [{"kind": "same"}] + [{"kind": rng.choice(kinds), "scale": rng.randint(2, 9)} for _ in range(ncalls - 1)]
+        if rng.random() < 0.5:
+            rng.shuffle(calls)
+        cases.append({"kind": "optreuse", "fw": rng.choice(["pa", "pd", "py"]), "uncopyable": unc, "where": rng.choice(["group", "group", "context"]),
+                      "shape": shape, "scale": rng.randint(2, 9), "scale2": rng.randint(2, 5), "res_on_top": rng.random() < 0.6, "calls": calls})  # fmt: skip
 
     batches: List[List[Dict[str, Any]]] = [[] for _ in range(nworkers)]
     where: List[Tuple[int, int]] = []
@@ -558,6 +782,21 @@ def run(ctx: Any) -> None:
             reqs.append({"op": "C07.gfSeq", **base, "shared": True})
             slot[(i, "n")] = len(reqs)
             reqs.append({"op": "C07.gfSeq", **base, "shared": False})
+        elif c["kind"] == "optreuse":
+            # the caller's object graph as a heap: 0 = r1, 1 = sc, 2 = sc2 (nested shapes); a "rewrap" call adds one object
+            res_val = {"t": "handle", "h": 9} if c["uncopyable"] in ("sqlite", "lock", "generator") else {"t": "scalar", "n": 7}
+            heap = [{"name": 0, "opts": []}, {"name": 1, "opts": [[0, {"t": "feats", "ids": [0]}], [1, {"t": "scalar", "n": c["scale"]}], [2, res_val]]}]
+            if c["shape"].startswith("nested"):
+                heap.append({"name": 2, "opts": [[0, {"t": "feats", "ids": [1]}], [3, {"t": "scalar", "n": c["scale2"]}]] + ([[2, res_val]] if c["res_on_top"] else [])})
+            for k, call in enumerate(c["calls"]):
+                hp = list(heap)
+                if call["kind"] == "rewrap":
+                    hp.append({"name": 1, "opts": [[0, {"t": "feats", "ids": [0]}], [1, {"t": "scalar", "n": call["scale"]}], [2, res_val]]})
+                    roots = [len(hp) - 1]
+                else:
+                    roots = [0] if call["kind"] == "base" else [1] if (call["kind"] == "mid" or len(heap) == 2) else [2]
+                slot[(i, f"o{k}")] = len(reqs)
+                reqs.append({"op": "C07.callerAfter", "perKey": True, "fuel": 6, "heap": hp, "roots": roots})
     outs = ctx.lean.batch(reqs)
 
     # ---- compare + oracle -------------------------------------------------------------------------
@@ -659,6 +898,35 @@ def run(ctx: Any) -> None:
                                   f"{ {x: fr.get(x) for x in ('tables', 'prepare_err', 'raised') if x in fr} }", sh, fr, finding_class=cls)  # fmt: skip
                 for n in call["feats"]:
                     seen_cfg.setdefault(GF_GROUP[n], set()).add((call["fw"], call["ov"]))
+        elif c["kind"] == "optreuse":
+            suite = "optreuse"
+            ctx.case(suite, c, c["uncopyable"] != "none" or c["shape"].startswith("nested"), shape=c["shape"], uncopyable=c["uncopyable"], where=c["where"], fw=c["fw"])
+            base_vals = [1, 2, 3]
+            for k, (call, oc) in enumerate(zip(c["calls"], o["calls"])):
+                ctx.case("optreuse_call", [c, k], k >= 1, call=call["kind"])
+                # reference evaluation from the scenario definition
+                if call["kind"] == "base":
+                    ref = [[["r1", base_vals]]]
+                elif call["kind"] == "rewrap":
+                    ref = [[["sc", [v * call["scale"] for v in base_vals]]]]
+                elif call["kind"] == "mid" or not c["shape"].startswith("nested"):
+                    ref = [[["sc", [v * c["scale"] for v in base_vals]]]]
+                else:
+                    ref = [[["sc2", [v * c["scale"] * c["scale2"] for v in base_vals]]]]
+                touched = outs[slot[(i, f"o{k}")]]
+                names = ["b1", "mid", "top"][: (3 if c["shape"].startswith("nested") else 2)]
+                model_mod = sorted(n for n, t in zip(names, touched) if t)
+                if model_mod != oc["modified_objs"]:
+                    ctx.disagree(suite, {"case": c, "index": k}, oc["modified_objs"], model_mod)
+                sh, fr = oc["shared"], oc["fresh"]
+                if fr != {"tables": ref}:
+                    ctx.violation(suite, {"case": c, "index": k}, f"call {k} {call} with fresh objects gives {fr}, reference evaluation {ref}", fr, ref)
+                if sh != fr:
+                    ctx.violation(suite, {"case": c, "index": k}, f"call {k} {call} re-using the caller's feature / option objects (earlier calls: {c['calls'][:k]}) gives {sh} "
+                                  f"but fresh equal objects give {fr}", sh, fr)  # fmt: skip
+                if oc["modified"]:
+                    ctx.violation(suite, {"case": c, "index": k}, f"the caller's feature objects (options hold nested Feature objects and a {c['uncopyable']} value in {c['where']}) were "
+                                  f"modified by call {k} {call} with the default copy_features: " + "; ".join(oc["modified"]), oc["modified"], "unchanged")  # fmt: skip
         else:
             suite = "linkseq"
             ctx.case(suite, c, len(c["calls"]) >= 2, initial_has_link=c["initial_has_link"])
